@@ -293,8 +293,8 @@ Fixpoint wrap_loop (w : window) (cols rows : Z) (lsegs : list lineseg)
       else
         let chars := characters cls in
         let total := zsum (map char_width chars) in
-        let '(col, row) := if total >? cols then (col, row)
-                           else if total + col >? cols then (0, row + 1)
+        let '(col, row) := if total >? cols then (col, row)           (* break at a grapheme *)
+                           else if total + col >? cols then (0, row + 1)  (* no space left *)
                            else (col, row) in
         match wrap_chars w cols chars st s col row with
         | None => None
@@ -347,6 +347,104 @@ Fixpoint edges_ok (w : window) (cols rows : Z) : bool :=
 
 (* columns covered by the glyph of a cell placed at column x *)
 Definition glyph_w (c : cell) : Z := Z.max 1 (cw c).
+
+(* ---- drawing as a list of placements (window coordinates), used to state what the text
+   helpers do independently of the screen ---- *)
+Definition placement := (Z * Z * cell)%type.
+
+Definition draw_places (w : window) (s : screen) (ps : list placement) : option screen :=
+  foldM (fun s p => win_setcell w s (fst (fst p)) (snd (fst p)) (snd p)) ps s.
+
+(* what a sequence of placements leaves at (col,row): the last cell put there *)
+Fixpoint last_at (ps : list placement) (col row : Z) : option cell :=
+  match ps with
+  | [] => None
+  | p :: t =>
+      match last_at t col row with
+      | Some c => Some c
+      | None => if (fst (fst p) =? col) && (snd (fst p) =? row) then Some (snd p) else None
+      end
+  end.
+
+Section TextSpec.
+Variable measure : text -> Z.
+Variable remeasure : bool.
+Variable trailing : text -> bool.
+
+(* the layout of Print: where each cluster goes, and the returned position *)
+Fixpoint print_places (cols rows : Z) (items : list (character * Z)) (col row : Z)
+  : list placement * (Z * Z) :=
+  match items with
+  | [] => ([], (col, row))
+  | (ch, st) :: t =>
+      if has_nl (gr ch) then print_places cols rows t 0 (row + 1)
+      else if row >? rows then ([], (col, row))
+      else
+        let wdt := char_width measure remeasure ch in
+        match fit cols col row wdt with
+        | None => print_places cols rows t col row
+        | Some (c1, r1) =>
+            let rest := if c1 + wdt >=? cols then print_places cols rows t 0 (r1 + 1)
+                        else print_places cols rows t (c1 + wdt) r1 in
+            ((c1, r1, mkCell (gr ch) wdt st) :: fst rest, snd rest)
+        end
+  end.
+
+Fixpoint ptrunc_places (cols : Z) (items : list (character * Z)) (col row : Z) : list placement :=
+  match items with
+  | [] => []
+  | (ch, st) :: t =>
+      let wdt := char_width measure remeasure ch in
+      if col + 1 + wdt >? cols then [(col, row, mkCell ellipsis 1 st)]
+      else (col, row, mkCell (gr ch) wdt st) :: ptrunc_places cols t (col + wdt) row
+  end.
+
+Fixpoint println_places (cols : Z) (items : list (character * Z)) (col row : Z) : list placement :=
+  match items with
+  | [] => []
+  | (ch, st) :: t =>
+      let wdt := char_width measure remeasure ch in
+      if col + wdt >? cols then []
+      else (col, row, mkCell (gr ch) wdt st) :: println_places cols t (col + wdt) row
+  end.
+
+Fixpoint wrap_chars_places (cols : Z) (chars : list character) (st : Z) (col row : Z)
+  : list placement * (Z * Z) :=
+  match chars with
+  | [] => ([], (col, row))
+  | ch :: t =>
+      if trailing (gr ch) then wrap_chars_places cols t st 0 (row + 1)
+      else
+        match fit cols col row (wd ch) with
+        | None => wrap_chars_places cols t st col row
+        | Some (c1, r1) =>
+            let rest := if c1 + wd ch >=? cols then wrap_chars_places cols t st 0 (r1 + 1)
+                        else wrap_chars_places cols t st (c1 + wd ch) r1 in
+            ((c1, r1, mkCell (gr ch) (wd ch) st) :: fst rest, snd rest)
+        end
+  end.
+
+(* where Wrap starts a line segment *)
+Definition wrap_start (cols total col row : Z) : Z * Z :=
+  if total >? cols then (col, row)
+  else if total + col >? cols then (0, row + 1)
+  else (col, row).
+
+Fixpoint wrap_places (cols rows : Z) (lsegs : list lineseg) (col row : Z) : list placement * (Z * Z) :=
+  match lsegs with
+  | [] => ([], (col, row))
+  | (cls, st) :: t =>
+      if row >=? rows then ([], (col, row))
+      else
+        let chars := characters cls in
+        let total := zsum (map (char_width measure remeasure) chars) in
+        let start := wrap_start cols total col row in
+        let here := wrap_chars_places cols chars st (fst start) (snd start) in
+        let rest := wrap_places cols rows t (fst (snd here)) (snd (snd here)) in
+        (fst here ++ fst rest, snd rest)
+  end.
+
+End TextSpec.
 
 (* ------------------------------------------------------------------ correspondence *)
 
